@@ -42,12 +42,26 @@ open BS.Inv
 
 def sigs : List (List (PKind × List String)) := [
   [(.other, ["int"]), (.other, ["str"])],
-  [(.other, ["ints", "nilints"]), (.other, ["map", "nilmap"])],
-  [(.other, ["st"]), (.other, ["pst", "nilpst"])],
+  [(.other, ["ints", "nilints", "nil"]), (.other, ["map", "nilmap", "nil"])],
+  [(.other, ["st"]), (.other, ["pst", "nilpst", "nil"])],
   [(.iface, ["int", "i64", "str", "ints", "nilints", "map", "nilmap", "st", "impl", "nil", "f64", "bool", "u8", "bytes", "res"]),
    (.iface, ["impl", "nil"])],
-  [(.resultPtr, ["res"]), (.iface, ["res", "nil"]), (.other, ["i64"])],
-  [(.other, ["f64"]), (.other, ["bool"]), (.other, ["u8"]), (.other, ["bytes"])]]
+  [(.resultPtr, ["res", "nil"]), (.iface, ["res", "nil"]), (.other, ["i64"])],
+  [(.other, ["f64"]), (.other, ["bool"]), (.other, ["u8"]), (.other, ["bytes", "nil"])]]
+
+/-- an untyped nil passed for a slice, map or pointer parameter is the parameter's typed nil
+(func.go: `isNilAssignable`; invocation.go: the typed zero value is encoded) -/
+def coerceNil (pk : PKind) (allowed : List String) (a : AVal) : AVal :=
+  match a, pk with
+  | .nilv, .iface => .nilv
+  | .nilv, .resultPtr => .nilptr
+  | .nilv, .other =>
+    match allowed.headD "" with
+    | "ints" => .val "ints()"
+    | "map" => .val "map()"
+    | "bytes" => .val "bytes()"
+    | _ => .nilptr
+  | a, _ => a
 
 def quarter (v : Nat) : String :=
   let q := v / 4
@@ -103,11 +117,11 @@ def runInv (c obs : String) : String × String × Bool :=
     if !welltyped then
       ("typeerr", if obs == "typeerr" then "ok" else "ill-typed-arguments-accepted", obs == "typeerr")
     else
-      let pargs := (sig.zip args).map fun ((pk, _), (_, a)) => (pk, a)
+      let pargs := (sig.zip args).map fun ((pk, allowed), (_, a)) => (pk, coerceNil pk allowed a)
       let model := match encodeArgs pargs with
         | none => "encerr"
         | some ws =>
-          let sent := joinWith ";" (pargs.map fun p => showA (subst p.2))
+          let sent := joinWith ";" (args.map fun p => showA (subst p.2))
           s!"sent={sent}|func={k} idx=true excl=false loc=loc.go:7 args={joinWith ";" ((decodeArgs ws).map showA)}"
       -- oracle: the property on the implementation's own observation
       let oracle :=
@@ -115,10 +129,41 @@ def runInv (c obs : String) : String × String × Bool :=
           (if obs == "encerr" then "ok" else "unencodable-argument-not-reported-as-error")
         else match splitOn1 obs '|' with
           | [sent, rest] =>
-            let want := "func=" ++ toString k ++ " idx=true excl=false loc=loc.go:7 args=" ++ (sent.drop 5).toString
+            -- what was sent, as the harness saw it; an untyped nil for a typed parameter counts as that type's nil
+            let sentL := ((sent.drop 5).toString.splitOn ";").zip pargs |>.map fun (s, (_, a)) => if s == "nil" then showA a else s
+            let want := "func=" ++ toString k ++ " idx=true excl=false loc=loc.go:7 args=" ++ joinWith ";" sentL
             if rest == want then "ok" else "invocation-changed-in-transport"
           | _ => "invocation-not-delivered"
       (model, oracle, model == obs)
+  | _ => ("bad-case", "bad-case", false)
+
+/-! ### arguments through a real session (C16e2e) -/
+
+def runE2E (c obs : String) : String × String × Bool :=
+  match c.splitOn ";;" with
+  | [cfg, call] =>
+    let bm := (words cfg).contains "bm"
+    let ws := words call
+    let (want, encodableArgs) : String × Bool := match ws with
+      | ["E0", p, m, xs] =>
+        let (_, pa) := argVal p
+        let pa := coerceNil .other ["pst"] pa
+        let a : Int := match p.splitOn ":" with | ["pst", v] => toInt! v | _ => -1
+        let lenOf (s : String) : Nat := match s.splitOn ":" with
+          | [_, v] => if v == "" then 0 else (v.splitOn ",").length
+          | _ => 0
+        (s!"ok rows={a},{100 * lenOf m + lenOf xs}", (encodeArgs [(.other, pa)]).isSome)
+      | ["E1", _] => ("ok rows=7,0", (encodeArgs [(.other, .unenc "func")]).isSome)
+      | ["E2", _] => ("ok rows=3,0", (encodeArgs [(.other, .unenc "chan")]).isSome)
+      | _ => ("bad-case", true)
+    let model := if bm && !encodableArgs then "error" else want
+    let oracle :=
+      if obs.startsWith "hang" || obs.startsWith "CRASH" || obs.startsWith "HANG" || (obs.splitOn "PANIC").length > 1 then
+        s!"an invocation did not end with a result or an error: {obs.take 120}"
+      else if bm && !encodableArgs then
+        (if obs.startsWith "err:" || obs.startsWith "fatal:" then "ok" else "unencodable-argument-not-reported-as-error")
+      else if obs == want then "ok" else s!"the invocation built a different slice: {obs.take 100}, expected {want}"
+    (model, oracle, oracle == "ok")
   | _ => ("bad-case", "bad-case", false)
 
 end Driver.C16
